@@ -58,7 +58,7 @@ def load_benign():
         if not meta.get('confirmed'):
             continue
         for pid in sorted(PROPS):
-            out.append(dict(id='benign-%s@%s' % (name, pid), prop=pid, rule=None, expect='silent', patch=pp, anyfile=True, benign=True,
+            out.append(dict(id='benign-%s@%s' % (name, pid), prop=pid, rule=None, expect='silent', patch=pp, anyfile=True, benign=True, own=name.startswith(pid + '-'),
                             accept_refusal=meta.get('accepted_refusals', {}).get(pid)))
     return out
 
@@ -214,6 +214,9 @@ def run_for_property(pid):
         return m.get('rule') in my_fns and home.get(m['rule']) is my_fns[m['rule']]
     ms = []
     for m in load_mutants() + load_seeded() + load_transforms() + load_benign():
+        if m.get('benign') and not m.get('own'):
+            continue            # the thorough tier of a property runs the refactorings written for that property; the full cross
+                                # product (every refactoring x every property) is `./check selftest benign` / tools/benign_status.py
         if m['prop'] == pid:
             ms.append(m)
         elif same_rule(m) and not m.get('patch') and not m.get('transform'):
@@ -236,6 +239,10 @@ def run_for_property(pid):
 
 def main(args, strict=False):
     ms = load_mutants() + load_seeded() + load_transforms() + load_benign()
+    if args == ['core']:
+        # mutants, seeded defects and renaming twins: everything except the (large) benign cross product
+        ms = [m for m in ms if not m.get('benign')]
+        args = []
     if args:
         ms = [m for m in ms if m['prop'] in args or m['rule'] in args or m['id'] in args or (args == ['seeded'] and m['id'].startswith('seeded-'))
               or (args == ['twins'] and m.get('transform')) or (args == ['benign'] and m.get('benign'))]
